@@ -72,7 +72,8 @@ def check_dispatch(idx: Index, rep: Report):
             cases.append((f"mapping '{sp_}'", dict(base, mapping=sp_), False))
     cases.append(("mapping 'XYZ'", dict(base, mapping="XYZ"), True))
     cases.append(("mapping '' (empty)", dict(base, mapping=""), True))
-    decide_refusals(idx, rep, rule, f, cases, what="every advertised mapping name is accepted in any letter case, anything else is an error")
+    decide_refusals(idx, rep, rule, f, cases, what="every advertised mapping name is accepted in any letter case, anything else is an error",
+                    may_skip=("mapping.upper in",))     # a guard on the bound method object (never true); reported below for information
     # register size provenance
     want = {"bravyi_kitaev": {"n_qubits": "n_spinorbitals"}, "jkmn": {"n_qubits": "n_spinorbitals"},
             "symmetry_conserving_bravyi_kitaev": {"fermion_operator": "fermion_operator", "n_spinorbitals": "n_spinorbitals", "n_electrons": "n_electrons",
@@ -90,7 +91,7 @@ def check_dispatch(idx: Index, rep: Report):
     # scBK needs the electron number
     decide_refusals(idx, rep, rule, f, [("scBK without n_electrons", dict(base, mapping="scbk", n_electrons=None), True),
                                          ("up_then_down without n_spinorbitals", dict(base, mapping="jw", up_then_down=True, n_spinorbitals=None), True)],
-                    what="the symmetry-conserving encoding needs the electron number; re-ordering needs the register size")
+                    what="the symmetry-conserving encoding needs the electron number; re-ordering needs the register size", may_skip=("mapping.upper in",))
     # dead guard (informational)
     for n in own_nodes(f.node):
         if isinstance(n, ast.Compare) and isinstance(n.left, ast.Attribute) and n.left.attr == "upper" and isinstance(n.ops[0], ast.In):
